@@ -283,6 +283,10 @@ class StmtMixin:
             self.bind_target(target, val, st)
             return
         if isinstance(target, ast.Subscript):
+            txt = ast.unparse(target.value)
+            if any(txt.startswith(u) for u in self.contract.unmodelled):
+                self.collector.assumptions.add(f"{self.kernel.qualname}: store into {txt} is outside the modelled state")
+                return
             base = self.eval(target.value, st)
             if isinstance(target.slice, ast.Slice):
                 raise Unsupported("slice assignment")
@@ -501,7 +505,15 @@ class StmtMixin:
                 s2.heap[key] = oldv
                 outs.append((s2, out))
             return outs
-        raise Unsupported(f"with {ast.unparse(ce)[:40]}")
+        txt = ast.unparse(ce)
+        if any(txt.startswith(p) for p in getattr(self.contract, "transparent_with", [])):
+            # an opaque context manager declared transparent by the contract: enter/exit assumed not to
+            # touch modelled state nor to swallow exceptions
+            self.collector.assumptions.add(f"{self.kernel.qualname}: `with {txt[:50]}` treated as transparent")
+            if item.optional_vars is not None:
+                self.assign(item.optional_vars, S_val(self.fresh_term(st, "cm", V)), st)
+            return self.exec_block(node.body, st)
+        raise Unsupported(f"with {txt[:40]}")
 
     # ------------------------------------------------------------------ loops
     def assigned_names(self, body) -> tuple[set, set, bool]:
